@@ -205,6 +205,16 @@ HARMLESS = [
     ('filelock: path converted with os.fspath', 'aiuti/filelock.py', [
         ("        self._lock_file: PathLike = lock_file", "        self._lock_file: PathLike = os.fspath(lock_file)"),
     ], ['C02', 'C12']),
+    ('batcher: batch_timeout read into a local right before the timed wait', 'aiuti/asyncio.py', [
+        ("                tasks.append(await aio.wait_for(q.get(), self.batch_timeout))",
+         "                limit = self.batch_timeout\n                tasks.append(await aio.wait_for(q.get(), limit))"),
+    ], ['C10', 'C15']),
+    ('buffer: completion flag set through a local alias', 'aiuti/asyncio.py', [
+        ("            self.event.set()\n            return True", "            done = self.event\n            done.set()\n            return True"),
+    ], ['C07', 'C03']),
+    ('bridges: hand-over through queue.SimpleQueue', 'aiuti/asyncio.py', [
+        ("    q: 'queue.Queue[T]' = queue.Queue()", "    q: 'queue.SimpleQueue[T]' = queue.SimpleQueue()"),
+    ], ['C16']),
 ]
 
 
